@@ -20,7 +20,18 @@ def md_value(code: int, style: int = 0):
     v = {"k": code, "n": {"l": [code, str(code)]}}
     if code % 2 == 0:
         v["z"] = [1.5, None, True, {"deep": [code]}]
+    if code % 3 == 0:
+        # values that JSON does not hand back unchanged (a tuple becomes a list): equal by value on every
+        # call, so they must not look like a metadata change to the writer
+        v["t"] = (code, 128)
+        v["w"] = {"window": (0, code), "ratio": code / 8}
     return v
+
+
+def md_canon(value):
+    """Metadata as JSON hands it back (what is recorded on disk): tuples are lists."""
+    import json
+    return json.loads(json.dumps(value)) if value is not None else None
 
 
 def md_mutate(d: dict, code: int, nested: bool):
@@ -40,6 +51,11 @@ def md_mutate(d: dict, code: int, nested: bool):
         d["z"] = new["z"]
     else:
         d.pop("z", None)
+    for key in ("t", "w"):
+        if key in new:
+            d[key] = new[key]
+        else:
+            d.pop(key, None)
 
 
 def md_code(value) -> int:
@@ -124,7 +140,7 @@ def decode_shard(ds, path: Path):
     return [sp.ident(e) for e in it.iterate_shard(path)]
 
 
-def run_impl(root: Path, fmt: str, eps: int, sessions, attrs, reopen: bool):
+def run_impl(root: Path, fmt: str, eps: int, sessions, attrs, reopen: bool, md_shift: int = 0):
     """Execute on the real API. Returns per-write records and the final per-split listing."""
     from sedpack.io import Dataset, Attribute
     A = [Attribute(name=n, dtype=d, shape=s) for n, d, s in attrs]
@@ -153,7 +169,7 @@ def run_impl(root: Path, fmt: str, eps: int, sessions, attrs, reopen: bool):
                     else:
                         if o not in objs:
                             styles[o] = o
-                            objs[o] = dict(md_value(o + 1))
+                            objs[o] = dict(md_value(o + 1 + md_shift))
                         arg = objs[o]
                     snap = copy.deepcopy(arg)
                     rec = {"split": s, "ex": ex, "kind": kind, "md": md_code(snap), "md_value": snap}
@@ -243,7 +259,7 @@ def must_reject(fmt: str, kind: str) -> bool | None:
 def explore(ctx, focus: str):
     """Generate cases for `focus` in {C10, C11, C18}; return list of case dicts with impl + model results."""
     rng = ctx.rng("fill-" + focus)
-    n_cases = ctx.pick({"C10": 18, "C11": 18, "C18": 24}[focus], {"C10": 150, "C11": 150, "C18": 200}[focus])
+    n_cases = ctx.pick({"C10": 45, "C11": 45, "C18": 60}[focus], {"C10": 150, "C11": 150, "C18": 200}[focus])
     cases = []
     for i in range(n_cases):
         fmt = FORMATS[i % 3]
@@ -272,7 +288,7 @@ def explore(ctx, focus: str):
         if focus == "C18" and rng.random() < 0.6:
             attrs = [("a", "int32", (2,)), ("b", "float32", (3,)), ("c", "uint8", ())][: rng.choice([2, 3])]
         cases.append({"fmt": fmt, "eps": eps, "sessions": sessions, "attrs": attrs, "reopen": rng.random() < 0.5,
-                      "md_mode": md_mode, "mutate": mutate})
+                      "md_mode": md_mode, "mutate": mutate, "md_shift": rng.choice([0, 0, 2, 5])})
     # corpus first
     corpus = sorted((Path(__file__).resolve().parents[2] / "corpus" / focus).glob("*.json"))
     cases = [json.loads(p.read_text()) for p in corpus] + cases
@@ -282,7 +298,7 @@ def explore(ctx, focus: str):
     for i, c in enumerate(cases):
         root = ctx.scratch / f"{focus}_{i}"
         c["attrs"] = [tuple(a[:2]) + (tuple(a[2]),) for a in c["attrs"]]
-        c["impl"] = run_impl(root, c["fmt"], c["eps"], c["sessions"], c["attrs"], c["reopen"])
+        c["impl"] = run_impl(root, c["fmt"], c["eps"], c["sessions"], c["attrs"], c["reopen"], c.get("md_shift", 0))
         shutil.rmtree(root, ignore_errors=True)
     reqs, idx = [], []
     for c in cases:
@@ -301,7 +317,7 @@ def explore(ctx, focus: str):
 
 def slim(c):
     """A case without bulky results, for replay files / samples."""
-    return {k: c[k] for k in ("fmt", "eps", "sessions", "attrs", "reopen", "md_mode", "mutate")}
+    return {k: c.get(k) for k in ("fmt", "eps", "sessions", "attrs", "reopen", "md_mode", "mutate", "md_shift")}
 
 
 def shape_of(c):
